@@ -259,6 +259,7 @@ pub fn generate(seed: u64, n: usize, _thorough: bool, _corpus: Option<&str>) -> 
     // a dedicated sub-stream with its OWN generator (independent of how much randomness the streams above consume): chains of
     // one operator printed without parentheses, see `chain_programs`
     out.extend(chain_programs(seed, if n >= 2000 { n / 12 } else { 48 }));
+    out.extend(nested_logic_programs(seed, if n >= 2000 { n / 24 } else { 32 }));
     // fixed programs for the arms the random stream rarely reaches: `Linearization(..)` errors, the variable-free branch of
     // `auto_solver` (solved / infeasible), an unbounded model
     for text in [
@@ -410,6 +411,55 @@ pub fn chain_programs(seed: u64, count: usize) -> Vec<Case> {
         if separable { c.tags.push("chain-separating".into()); }
         out.push(c);
         made += 1;
+    }
+    out
+}
+
+// ======================================================================================================
+// NESTED exclusive-or / biconditional: an `xor` / `iff` BELOW an or / implies / negated and, asserted, with the other operands
+// pinned so that the satisfying assignments need the xor to be true (resp. the iff to be false) - the one-directional witness
+// lowering of the linearizer.  Own generator, fixed size.
+
+pub fn nested_logic_programs(seed: u64, count: usize) -> Vec<Case> {
+    use rooc::{BinOp, Comparison, OptimizationType};
+    let mut r = Rng::new(seed ^ 0x0e57ed_10c1c).fork();
+    let bx = |e: SrcExp| Box::new(e);
+    let names = ["a", "b", "c", "d"];
+    let ds: Vec<VarDecl> = names.iter().map(|n| VarDecl { name: n.to_string(), ty: VariableType::Boolean }).collect();
+    let mut out = vec![];
+    for i in 0..count {
+        let v = |r: &mut Rng, n: &str| if r.chance(1, 5) { SrcExp::Not(Box::new(SrcExp::Variable(n.into()))) } else { SrcExp::Variable(n.into()) };
+        let (a, b, c, d) = (v(&mut r, "a"), v(&mut r, "b"), v(&mut r, "c"), v(&mut r, "d"));
+        let xor = SrcExp::Xor(bx(a.clone()), bx(b.clone()));
+        let iff = SrcExp::Iff(bx(a.clone()), bx(b.clone()));
+        let e = match i % 8 {
+            0 => SrcExp::BinOp(BinOp::Or, bx(xor), bx(c.clone())),
+            1 => SrcExp::Implies(bx(iff), bx(c.clone())),
+            2 => SrcExp::Not(bx(SrcExp::BinOp(BinOp::And, bx(iff), bx(c.clone())))),
+            3 => SrcExp::Implies(bx(c.clone()), bx(xor)),
+            4 => SrcExp::BinOp(BinOp::Or, bx(xor), bx(SrcExp::Iff(bx(c.clone()), bx(d.clone())))),
+            5 => SrcExp::Or(vec![c.clone(), xor, d.clone()]),
+            6 => SrcExp::Implies(bx(SrcExp::BinOp(BinOp::And, bx(c.clone()), bx(iff))), bx(d.clone())),
+            _ => SrcExp::BinOp(BinOp::Or, bx(SrcExp::Not(bx(iff))), bx(c.clone())),
+        };
+        let mut cons = vec![SrcConstraint::new_logic_assertion(e, "nested".into())];
+        // pin the other operands so that the xor / iff side has to carry the assertion
+        let pin = |n: &str, val: f64| SrcConstraint::new(SrcExp::Variable(n.into()), Comparison::Equal, SrcExp::Number(val), String::new());
+        match r.below(4) {
+            0 => { cons.push(pin("c", if matches!(c, SrcExp::Not(_)) { 1.0 } else { 0.0 })); }
+            1 => { cons.push(pin("c", if matches!(c, SrcExp::Not(_)) { 1.0 } else { 0.0 })); cons.push(pin("d", if matches!(d, SrcExp::Not(_)) { 1.0 } else { 0.0 })); }
+            2 => { cons.push(pin("a", 1.0)); cons.push(pin("b", 1.0)); }
+            _ => {}
+        }
+        let opt = if r.chance(1, 2) { OptimizationType::Min } else { OptimizationType::Max };
+        let mut obj = SrcExp::Variable("a".into());
+        for (k, n) in names.iter().enumerate().skip(1) { obj = SrcExp::BinOp(BinOp::Add, bx(obj), bx(SrcExp::BinOp(BinOp::Mul, bx(SrcExp::Number((1u32 << k) as f64)), bx(SrcExp::Variable(n.to_string()))))); }
+        let m = gen_model::build(opt, obj, cons, &ds);
+        let mut pr = r.fork();
+        let text = Printer { r: &mut pr, sp: Spelling { aliases: r.chance(1, 2), implicit_mul: false, redundant_parens: false, named_consts: false, minimal_parens: r.chance(1, 2) }, consts: vec![] }.program(&m);
+        let mut c = one(&m, &text, "nested-logic");
+        c.tags.push(format!("nested-logic-{}", i % 8));
+        out.push(c);
     }
     out
 }
